@@ -471,3 +471,120 @@ def decode_basic(value):
         return None
     u, _, p = raw.partition(':')
     return u, p
+
+
+# ------------------------------------------------------------------ end-to-end: the real application over fakenet
+def run_crawl(url, replies, tries, max_redirects, login=None, timeout=120):
+    """Builder(args).build().run() of the REAL application (pipeline, URL table, processor, rules,
+    filters, web client) against the scripted servers.  Returns the visits of `url` as seen at the
+    URL table: [(requests issued during the visit, status after, try_count after)], plus the
+    server log and the model parameters for each response."""
+    import shutil
+    import tempfile
+    import wpull.url
+    from wpull.application.builder import Builder
+    from wpull.application.options import AppArgumentParser
+    from wpull.database.wrap import URLTableHookWrapper
+    from wpull.protocol.http.redirect import RedirectTracker
+
+    script = Script(replies)
+    loads = []
+    events = []
+
+    class LogTracker(RedirectTracker):
+        def load(self, response):
+            loads.append((response.status_code, response.fields.get('location'), response.request.url_info.url))
+            super().load(response)
+
+    class LogTable(URLTableHookWrapper):
+        def check_out(self, filter_status, filter_level=None):
+            rec = super().check_out(filter_status, filter_level)
+            events.append(('out', rec.url, str(rec.status), rec.try_count, len(script.log)))
+            return rec
+
+        def check_in(self, url, new_status, increment_try_count=True, url_result=None):
+            r = super().check_in(url, new_status, increment_try_count=increment_try_count, url_result=url_result)
+            rec = self.url_table.get_one(url)
+            events.append(('in', url, getattr(rec.status, 'value', str(rec.status)), rec.try_count, len(script.log),
+                           bool(increment_try_count)))
+            return r
+
+    class Res(NamedResolver):
+        def __init__(self, *a, **k):
+            super().__init__()
+
+        @classmethod
+        def new_cache(cls):
+            return None
+
+    net = fakenet.FakeNet()
+    net.default = lambda: ScriptServer(script)
+    tmp = tempfile.mkdtemp(prefix='c18-')
+    argv = [url, '--no-robots', '--tries', str(tries), '--max-redirect', str(max_redirects), '--waitretry', '0',
+            '-q', '--directory-prefix', tmp, '--delete-after', '--no-check-certificate', '--html-parser', 'html5lib']
+    if login:
+        argv += ['--http-user', login[0], '--http-password', login[1]]
+    args = AppArgumentParser().parse_args(argv)
+    loop = compat.new_loop()
+    exit_code = None
+    hung = False
+    try:
+        with net:
+            b = Builder(args, unit_test=True)
+            b.factory.class_map['Resolver'] = Res
+            b.factory.class_map['URLTable'] = LogTable
+            b.factory.class_map['RedirectTracker'] = LogTracker
+            app = b.build()
+
+            async def go():
+                return await compat._ensure(app.run())
+            try:
+                exit_code = loop.run_until_complete(asyncio.wait_for(go(), timeout))
+            except asyncio.TimeoutError:
+                hung = True
+    finally:
+        try:
+            pending = [t for t in asyncio.all_tasks(loop) if not t.done()]
+            for t in pending:
+                t.cancel()
+            if pending:
+                loop.run_until_complete(asyncio.gather(*pending, return_exceptions=True))
+        except Exception:
+            pass
+        loop.close()
+        asyncio.set_event_loop(None)
+        shutil.rmtree(tmp, ignore_errors=True)
+    visits = []
+    start = None
+    for ev in events:
+        if ev[0] == 'out':
+            start = ev
+        elif ev[0] == 'in' and start is not None:
+            visits.append({'requests': ev[4] - start[4], 'status': ev[2], 'try_count': ev[3], 'incremented': ev[5],
+                           'try_before': start[3]})
+            start = None
+    mreplies = []
+    li = 0
+    for k in range(len(script.log)):
+        rep = replies[k] if k < len(replies) else {'status': 200, 'mode': 'resp'}
+        if rep.get('mode', 'resp') != 'resp':
+            mreplies.append((0, False, 3 if rep['mode'] == 'close' else 4, None))
+            continue
+        if li >= len(loads):
+            raise Infra('response without RedirectTracker.load')
+        st, loc, base = loads[li]
+        li += 1
+        kind, c = 0, None
+        if loc:
+            try:
+                k2, info = parse_url(wpull.url.urljoin(base, loc))
+            except ValueError:
+                k2, info = 'invalid', None
+            if k2 == 'url':
+                kind, c = 2, urlc(info)
+            elif k2 == 'other':
+                kind = 1
+        mreplies.append((st, bool(loc), kind, c))
+    from wpull.url import URLInfo
+    return {'visits': visits, 'events': events, 'hops': list(script.log), 'mreplies': mreplies, 'exit': exit_code,
+            'hung': hung, 'answers': [], 'init_pairs': [], 'init_url': URLInfo.parse(url)}
